@@ -137,6 +137,8 @@ SUBCHECKS = {
     'schemas': SubCheck(run_case, strategy=lambda tier: _case('base'), examples={'quick': 300, 'thorough': 8000}),
     'schemas-family': SubCheck(run_case, strategy=lambda tier: _case('family'), examples={'quick': 250, 'thorough': 6000},
                                note='redefinitions with identical name pattern but other signers, sibling rules sharing a prefix'),
+    'schemas-typed-twins': SubCheck(run_case, strategy=lambda tier: _case('twins'), examples={'quick': 150, 'thorough': 4000},
+                                    note='literals equal in value, different in component type'),
     'schemas-many-patterns': SubCheck(run_case, strategy=lambda tier: _case('many'), examples={'quick': 200, 'thorough': 6000},
                                       note='14 pattern names: pattern numbers reach two digits'),
 }
